@@ -159,10 +159,12 @@ Definition ex_inst : list (text * val) :=
 Example C03_ex_flatten :
   wf_sig ex_d ex_fs = true /\ typed_obj ex_fs ex_inst = true /\
   length (sent_doc (flatten ex_d ex_fs ex_inst)) = 3%nat /\
-  unflatten true true ex_d ex_fs (rev (sent_doc (flatten ex_d ex_fs ex_inst))) <> VFault.
+  Permutation (rev (sent_doc (flatten ex_d ex_fs ex_inst))) (sent_doc (flatten ex_d ex_fs ex_inst)) /\
+  option_map erase_obj (match unflatten true true ex_d ex_fs (rev (sent_doc (flatten ex_d ex_fs ex_inst))) with
+                        | Ok o => Some o | _ => None end) = Some ex_inst.
 Proof.
   split; [vm_compute; reflexivity|]. split; [vm_compute; reflexivity|]. split; [vm_compute; reflexivity|].
-  vm_compute. discriminate.
+  split; [symmetry; apply Permutation_rev | vm_compute; reflexivity].
 Qed.
 
 (** the refutation witnesses are conformant values of covered signatures (see C03/Refute.v) *)
